@@ -54,5 +54,13 @@ F9) # backup counter wrap-around (needs a build without overflow checks, i.e. a 
     if [ "$(cat 'dst.txt.~0~')" != "bak0" ]; then echo "DEFECT F9: existing backup dst.txt.~0~ was replaced (exit $rc)"; exit 1; fi
     if [ "$(cat 'dst.txt.~18446744073709551615~')" != "bakMAX" ]; then echo "DEFECT F9: existing backup .~MAX~ was replaced (exit $rc)"; exit 1; fi
     echo "F9 ok (exit $rc, existing backups untouched)"; exit 0;;
+F10) # a directory copied onto itself through another spelling: the walker recursed into its own output
+    mkdir d; echo x > d/f; ln -s d lnk
+    for dst in ./d d/../d lnk; do
+        timeout 120 "$X" -r d "$dst" >/dev/null 2>&1; rc=$?
+        n=$(find d | wc -l)
+        if [ "$n" != 2 ] || [ $rc = 0 ]; then echo "DEFECT F10: 'xcp -r d $dst' exit $rc left $n entries under d (expected 2 and a refusal)"; exit 1; fi
+    done
+    echo "F10 ok"; exit 0;;
 *) echo "unknown finding $WHICH"; exit 2;;
 esac
